@@ -125,7 +125,12 @@ func (h *Heap[T]) Pop() T {
 // Delete removes an element from the heap. It returns false in case the element does not exists.
 // After removal, it reorders the heap structure based on the heap-specific rules.
 func (h *Heap[T]) Delete(val T) (bool, error) {
-	len := h.Size()
+	// The size, the position of the value and the removal belong to one critical
+	// section: another goroutine may shrink the heap in between otherwise.
+	h.mu.Lock()
+	defer h.mu.Unlock()
+
+	len := h.size()
 	if len == 0 {
 		return false, fmt.Errorf("heap empty")
 	}
@@ -135,12 +140,10 @@ func (h *Heap[T]) Delete(val T) (bool, error) {
 		return false, fmt.Errorf("value not found in the heap: %v", val)
 	}
 
-	h.mu.Lock()
 	swap(h.data, idx, len-1)
 	h.data = h.data[:len-1]
 
 	h.moveDown(len-1, 0)
-	h.mu.Unlock()
 
 	return true, nil
 }
@@ -280,15 +283,13 @@ func swap[T any](data []T, i, j int) {
 	data[i], data[j] = data[j], data[i]
 }
 
+// getIndex has a local scope only, the caller holds the lock.
 func (h *Heap[T]) getIndex(slice []T, val T) (int, bool) {
-	h.mu.RLock()
 	for i := 0; i < len(slice); i++ {
 		if slice[i] == val {
-			h.mu.RUnlock()
 			return i, true
 		}
 	}
-	h.mu.RUnlock()
 
 	return -1, false
 }
